@@ -21,6 +21,11 @@ theorem stop_combine_fact : stopFact = true := rfl
 
 theorem facts_fresh : Facts.c06FactsStale = false := rfl
 
+/-- `taskHandleHookRun` has the rule "no Synchronization for v0 hooks" (the model's `prepare` applies it iff
+this regenerated fact says so; every theorem below needs it: without the rule a v0 binding whose
+converted configuration carries the flag is executed). -/
+theorem v0_rule_fact : Facts.c06V0SkipRule = true ∧ v0RuleFact = true := ⟨rfl, rfl⟩
+
 /-- `hooks` is the list `Init` leaves: sorted by path, no path twice. -/
 def PathSorted (hooks : List Hook) : Prop := hooks.Pairwise (fun a b => a.name < b.name)
 
@@ -89,23 +94,25 @@ theorem sync_before_events_and_schedules (h : Hook) (sc : List Bool) :
       execCtxs pre = execCtxs (hookPlan stopFact h sc) ∧
       unlocked pre = h.kube.map (·.name) ∧ Ev.enableSched h.name ∉ pre) ∧
     ∀ (hooks : List Hook) (s : St), ∃ new, (step stopFact hooks s).log = s.log ++ new ∧
-      (new = [] ∨ (∃ h, new = [.enableSched h]) ∨ (∃ h, new = [.enableKube h]) ∨
+      (new = [] ∨ (∃ h, new = [.enableSched h]) ∨ (∃ h, new = [.enableKube h] ∨ ∃ k, new = [.enableKubeFail h k]) ∨
        (∃ h cs ms, new = [.skip h cs, .unlock ms]) ∨ (∃ h cs, new = [.exec h true cs]) ∨
        (∃ h cs, new = [.exec h false cs]) ∨ (∃ h cs ms, new = [.exec h false cs, .unlock ms])) := by
   refine ⟨?_, fun hooks s => step_new_events stopFact hooks s⟩
-  refine ⟨if h.kube.isEmpty then [] else .enableKube h.name :: (syncPlan stopFact h sc h.kube).1, rfl, ?_, ?_, ?_⟩
+  refine ⟨if h.kube.isEmpty then [] else enableFailLog h ++ .enableKube h.name :: (syncPlan stopFact h sc h.kube).1,
+    rfl, ?_, ?_, ?_⟩
   · rw [hookPlan, execCtxs_append]
     by_cases hsch : h.sched <;> simp [hsch, execCtxs]
   · by_cases hk : h.kube.isEmpty
     · have : h.kube = [] := by simpa using hk
       simp [unlocked, this]
-    · simp only [hk, Bool.false_eq_true, if_false, unlocked]
+    · simp only [hk, Bool.false_eq_true, if_false, unlocked_append, unlocked_enableFailLog, List.nil_append, unlocked]
       exact (syncPlan_delivers h _ h.kube (Nat.le_refl _) sc).2.1
   · intro hmem
     by_cases hk : h.kube.isEmpty
     · simp [hk] at hmem
-    · simp only [hk, Bool.false_eq_true, if_false, List.mem_cons] at hmem
-      rcases hmem with hmem | hmem
+    · simp only [hk, Bool.false_eq_true, if_false, List.mem_append, List.mem_cons] at hmem
+      rcases hmem with hmem | hmem | hmem
+      · simp [enableFailLog] at hmem
       · cases hmem
       · -- syncPlan writes only exec / skip / unlock
         have : ∀ (n : Nat) (bs : List KBinding), bs.length ≤ n → ∀ (sc : List Bool),
@@ -146,6 +153,39 @@ theorem sync_before_events_and_schedules (h : Hook) (sc : List Bool) :
                   · exact hret _ _ he
                   · exact ih _ hlen _ he
         exact this _ h.kube (Nat.le_refl _) sc hmem
+
+/-- **C06.3 under faults of the enabling itself, `sync_once_despite_enable_faults`.** The
+`EnableKubernetesBindings` task of a hook may fail any finite number of times, each time at any of its
+bindings (`h.kfail`, part of every `Hook` the theorems quantify over): the retried task ends with the
+Synchronization task of EVERY binding at the head of the queue, in binding order, whatever the earlier
+attempts had already set up — and the hook's whole block, failed attempts included, still delivers
+exactly `deliveredSpec` and unlocks every monitor exactly once, in binding order. -/
+theorem sync_once_despite_enable_faults (hooks : List Hook) (h : Hook) (hfind : findHook hooks h.name = h)
+    (rest : List Task) (fails : Nat → List Bool) (log : List Ev) (sc : List Bool) :
+    (∃ k, runFuel stopFact hooks k
+        { queue := { typ := .enableKube, hook := h.name, kfail := h.kfail } :: rest, fails := fails, log := log } =
+      { queue := h.kube.map (syncTask h.name) ++ rest, fails := fails,
+        log := log ++ enableFailLog h ++ [.enableKube h.name] }) ∧
+    okCtxs (hookPlan stopFact h sc) = deliveredSpec (fun b => h.v1 && b.execSync) h.kube ∧
+    unlocked (hookPlan stopFact h sc) = h.kube.map (·.name) := by
+  refine ⟨?_, ?_, ?_⟩
+  · obtain ⟨k, hk⟩ := run_enable_retry stopFact hooks h.name rest fails h.kfail log
+    rw [hfind] at hk
+    exact ⟨k, hk⟩
+  · by_cases hk : h.kube.isEmpty
+    · have : h.kube = [] := by simpa using hk
+      by_cases hsch : h.sched <;> simp [hookPlan, this, hsch, okCtxs, deliveredSpec]
+    · have hd := (syncPlan_delivers h _ h.kube (Nat.le_refl _) sc).1
+      rw [show stopFact = true from rfl]
+      by_cases hsch : h.sched <;>
+        simp [hookPlan, hk, hsch, okCtxs_append, okCtxs_enableFailLog, okCtxs, hd]
+  · by_cases hk : h.kube.isEmpty
+    · have : h.kube = [] := by simpa using hk
+      by_cases hsch : h.sched <;> simp [hookPlan, this, hsch, unlocked]
+    · have hd := (syncPlan_delivers h _ h.kube (Nat.le_refl _) sc).2.1
+      rw [show stopFact = true from rfl]
+      by_cases hsch : h.sched <;>
+        simp [hookPlan, hk, hsch, unlocked_append, unlocked_enableFailLog, unlocked, hd]
 
 /-- what `deliveredSpec` says, spelled out: a binding that must be skipped never appears; an
 ungrouped deliverable binding appears -/
@@ -193,6 +233,35 @@ theorem sync_once_or_skipped (h : Hook) (sc : List Bool) :
     rw [this.1, hnil] at hc
     simp at hc
 
+/-- **C06.3 for configVersion v0.** Whatever `HookConfigV0.ConvertAndCheck` leaves in the flag of a v0
+binding (`convertV0`: the regenerated default `v0FlagFact`, no groups), a v0 hook is never executed with a
+Synchronization, and all its monitors are unlocked all the same. -/
+theorem v0_never_synchronized (h : Hook) (hv : h.v1 = false) (sc : List Bool) :
+    (convertV0 h).v1 = false ∧
+    execCtxs (hookPlan stopFact (convertV0 h) sc) = [] ∧
+    unlocked (hookPlan stopFact (convertV0 h) sc) = h.kube.map (·.name) := by
+  have hv' : (convertV0 h).v1 = false := by simp [convertV0, hv]
+  have hnames : (convertV0 h).kube.map (·.name) = h.kube.map (·.name) := by
+    simp [convertV0, hv, List.map_map, Function.comp_def]
+  refine ⟨hv', ?_, ?_⟩
+  · have h1 := (sync_before_events_and_schedules (convertV0 h) sc).1
+    obtain ⟨pre, hpre, hex, _, _⟩ := h1
+    have h2 := (sync_once_or_skipped (convertV0 h) sc).2.2 hv'
+    by_cases hk : (convertV0 h).kube.isEmpty
+    · by_cases hsch : (convertV0 h).sched <;> simp [hookPlan, hk, hsch, execCtxs]
+    · by_cases hsch : (convertV0 h).sched <;>
+        simp [hookPlan, hk, hsch, execCtxs_append, execCtxs_enableFailLog, execCtxs, h2]
+  · rw [← hnames]
+    exact (sync_once_despite_enable_faults [convertV0 h] (convertV0 h)
+      (by simp [findHook]) [] (fun _ => []) [] sc).2.2
+
+/-- non-vacuity: a v0 hook whose converted bindings carry the flag (what a converter that fills in the v1
+defaults would produce) is still skipped by the v0 rule -/
+example :
+    let h : Hook := { name := 1, v1 := false, onStartup := none, sched := false, kube := [⟨1, 0, true⟩, ⟨2, 0, true⟩] }
+    (run [h] (fun _ => [])).log =
+      [.enableKube 1, .skip 1 [.sync 1 0], .unlock [1], .skip 1 [.sync 2 0], .unlock [2]] := by decide
+
 /-- Whenever a run has emptied the queue it has reached *the* final state of `enable_order_alphabetical`
 (the driver runs `run` with the fuel `fuelBound` and reports the log only when the queue is empty). -/
 theorem run_is_final (hooks : List Hook) (fails : Nat → List Bool) (m : Nat)
@@ -235,7 +304,8 @@ theorem startup_before_everything (hooks : List Hook) (hs : PathSorted hooks) (f
         rcases List.mem_append.mp hc with hc | hc
         · by_cases hk : h.kube.isEmpty
           · simp [hk, execCtxs] at hc
-          · simp only [hk, Bool.false_eq_true, if_false, execCtxs] at hc
+          · simp only [hk, Bool.false_eq_true, if_false, execCtxs_append, execCtxs_enableFailLog,
+              List.nil_append, execCtxs] at hc
             have hd := (sync_once_or_skipped h (fails₁ h.name)).2.1 c hc
             obtain ⟨b, _, hb, _⟩ := deliveredSpec_mem _ _ c hd
             rw [hb]; rfl
@@ -262,6 +332,23 @@ example : (run [hA, hB, hC] sampleFails).queue = [] ∧
        .enableKube 1, .exec 1 true [.sync 1 1], .exec 1 false [.sync 1 1], .unlock [1], .skip 1 [.sync 2 0], .unlock [2],
        .exec 1 false [.sync 4 1, .sync 5 0], .unlock [3, 4, 5],
        .enableSched 1, .enableKube 3, .skip 3 [.sync 1 0], .unlock [1], .enableSched 3] := by decide
+
+/-- non-vacuity of `sync_once_despite_enable_faults`: the enabling of a hook with two bindings fails at its
+second binding, then at its first, then succeeds (the entry 7 names no binding: that attempt succeeds); both
+bindings get their Synchronization exactly once -/
+example :
+    let h : Hook := { name := 1, v1 := true, onStartup := none, sched := false,
+                      kube := [⟨1, 0, true⟩, ⟨2, 0, true⟩], kfail := [1, 0, 7] }
+    (run [h] (fun _ => [])).queue = [] ∧
+    (run [h] (fun _ => [])).log =
+      [.enableKubeFail 1 1, .enableKubeFail 1 0, .enableKube 1,
+       .exec 1 false [.sync 1 0], .unlock [1], .exec 1 false [.sync 2 0], .unlock [2]] := by decide
+
+/-- witness for the seeded defect "a retry skips the bindings whose monitor already exists": such an
+attempt would return only the second binding's task; `enableBindings` starts from the first binding -/
+example : enableBindings 1 none 0 [⟨1, 0, true⟩, ⟨2, 0, true⟩] =
+    some [syncTask 1 ⟨1, 0, true⟩, syncTask 1 ⟨2, 0, true⟩] ∧
+    enableBindings 1 (some 1) 0 [⟨1, 0, true⟩, ⟨2, 0, true⟩] = none := by decide
 
 example : deliveredSpec (fun b => hA.v1 && b.execSync) hA.kube = [.sync 1 1, .sync 4 1, .sync 5 0] := by decide
 
